@@ -30,8 +30,8 @@ ASSUMPTIONS = [
     'values outside the CSS 2.1 grammar are asserted invalid only when no CSS level could accept them (nonsense, wrong token kinds)',
     'default profiles are unrestricted',
 ]
-MIN_EVENTS = {'quick': {'oracle.grammar': 1400, 'oracle.metamorphic': 18000, 'oracle.paths': 4000, 'oracle.conjunction': 500, 'oracle.validate-onoff': 500},
-              'thorough': {'oracle.grammar': 1400, 'oracle.metamorphic': 250000, 'oracle.paths': 100000, 'oracle.conjunction': 12000, 'oracle.validate-onoff': 12000}}
+MIN_EVENTS = {'quick': {'oracle.grammar': 1100, 'oracle.metamorphic': 18000, 'oracle.paths': 4000, 'oracle.conjunction': 500, 'oracle.validate-onoff': 500},
+              'thorough': {'oracle.grammar': 1100, 'oracle.metamorphic': 250000, 'oracle.paths': 100000, 'oracle.conjunction': 12000, 'oracle.validate-onoff': 12000}}
 
 NEGATIVE_OK = {'margin-top', 'margin-right', 'margin-bottom', 'margin-left', 'top', 'right', 'bottom', 'left', 'z-index', 'text-indent',
                'letter-spacing', 'word-spacing', 'vertical-align'}  # fmt: skip
